@@ -26,7 +26,9 @@ func init() {
 	})
 }
 
-var c12Forms = append(append([]string{}, allCmds...), "variants-gff-samestart", "topranking-csv")
+var c12Forms = append(append([]string{}, allCmds...), "variants-gff-samestart", "topranking-csv", "cli-o-rerun")
+
+var rerunForms = []string{"toma", "variants", "samvariants", "snps", "snps-agg", "closest", "closestn", "updownlist", "topranking"}
 
 func genC12Case(r *Rand, form string, many bool) *Case {
 	switch form {
@@ -47,6 +49,20 @@ func genC12Case(r *Rand, form string, many bool) *Case {
 
 func genC12(r *Rand, tier string, ord int) *Trial {
 	form := c12Forms[ord%len(c12Forms)]
+	if form == "cli-o-rerun" {
+		// history: the real command line writes --outfile into a path that an earlier, longer run left behind
+		pk := genCmdCase(r, rerunForms[r.Intn(len(rerunForms))], caseSize{})
+		cc, ok := cliCase(pk)
+		if !ok {
+			return nil
+		}
+		cc.Opts.Args = append(cc.Opts.Args, "-o", "result.out")
+		t := &Trial{Kind: form, Case: *cc}
+		b := P0()
+		b.Explicit = true
+		t.Runs = append([]RunCfg{b}, genRunCfgs(r, 2)...)
+		return t
+	}
 	many := r.P(0.15)
 	c := genC12Case(r, form, many)
 	if c == nil {
@@ -116,6 +132,32 @@ func firstDiff(a, b string) string {
 }
 
 func checkC12(t *Trial, ctx *Ctx) *Failure {
+	if t.Kind == "cli-o-rerun" {
+		fresh := ctx.Run(t, 0, &t.Case)
+		if fresh.Out.Kind != simrt.Returned || fresh.Err != nil {
+			ctx.Discard("command line run into a fresh file did not succeed: " + firstLine(fresh.Describe()))
+			return nil
+		}
+		stale := strings.Repeat("left,behind,by,an,earlier,longer,run\n", 40+len(fresh.Files["result.out"])/30)
+		for i := 1; i < len(t.Runs); i++ {
+			c2 := t.Case
+			c2.Files = map[string]string{"result.out": stale}
+			for k, v := range t.Case.Files {
+				c2.Files[k] = v
+			}
+			res := ctx.Run(t, i, &c2)
+			if res.Out.Kind != simrt.Returned || res.Err != nil {
+				t.Runs = []RunCfg{t.Runs[0], t.Runs[i]}
+				return &Failure{Class: "C12/rerun-into-existing-file-fails{cli}", Detail: fmt.Sprintf("gofasta %v: %s", t.Case.Opts.Args, res.Describe())}
+			}
+			if string(res.Files["result.out"]) != string(fresh.Files["result.out"]) {
+				t.Runs = []RunCfg{t.Runs[0], t.Runs[i]}
+				return &Failure{Class: "C12/output-file-depends-on-its-previous-content{cli}", Detail: fmt.Sprintf("gofasta %v\nthe same command and input written into an existing, longer --outfile leaves different bytes than written into a fresh one.\n%s", t.Case.Opts.Args, firstDiff(string(fresh.Files["result.out"]), string(res.Files["result.out"])))}
+			}
+		}
+		ctx.Nontrivial()
+		return nil
+	}
 	base := ctx.Run(t, 0, &t.Case)
 	if base.Out.Kind != simrt.Returned {
 		return &Failure{Class: fmt.Sprintf("C12/baseline-%s{%s}", base.Out.Kind, t.Kind), Detail: "the baseline run of a valid input did not return: " + base.Describe()}
